@@ -371,4 +371,45 @@ def parseAny (ext : Ext) (fcbSup : Bool) (descs : List (List Seg)) (bin : Bytes)
     | some (i, r) => .ok (i, r.1, r.2)
     | none => .error .spsdk
 
+/-! ### one object, many init-offset assignments (state machine) -/
+
+/-- the part of a `BootableImage` object the init-offset setter touches: `_init_offset` and every segment's `excluded` flag -/
+structure ObjState where
+  init : Nat
+  excl : List Bool
+  deriving Repr, DecidableEq
+
+/-- `bimg.init_offset = v` / `set_init_offset(int)`, and `set_init_offset(BootableImageSegment)` -/
+inductive InitOp where
+  | byInt (v : Int)
+  | byKind (k : Nat)
+  deriving Repr, DecidableEq
+
+/-- `_update_segments()` -/
+def updateSegments (segs : List Seg) (init : Nat) : List Bool := segs.map (excluded init)
+
+/-- a freshly constructed object (`Segment.__init__`: `excluded = False`; constructor: `_init_offset = 0`) -/
+def freshObj (segs : List Seg) : ObjState := ⟨0, segs.map (fun _ => false)⟩
+
+/-- the setter: a refused request leaves the object untouched (the exceptions are raised before any assignment); otherwise
+    `_init_offset` is stored and `_update_segments()` runs on the paths on which the SOURCE calls it
+    (`BimgTables.setterUpdatesOnZero` / `setterUpdatesOnNonZero`, read from the setter's AST on every run) -/
+def applySet (segs : List Seg) (s : ObjState) (req : Int) : ObjState :=
+  match setInit segs req with
+  | .error _ => s
+  | .ok m =>
+    let upd := if req = 0 then BimgTables.setterUpdatesOnZero else BimgTables.setterUpdatesOnNonZero
+    ⟨m, if upd then updateSegments segs m else s.excl⟩
+
+def stepOp (segs : List Seg) (s : ObjState) : InitOp → ObjState
+  | .byInt v => applySet segs s v
+  | .byKind k =>
+    match segs.find? (fun x => x.kind == k) with
+    | none => s
+    | some sg => match sg.pos with
+      | none => s                       -- full_image_offset = -1: "Offset cannot be a negative number"
+      | some o => applySet segs s o
+
+def runOps (segs : List Seg) (s : ObjState) (ops : List InitOp) : ObjState := ops.foldl (stepOp segs) s
+
 end SpsdkVerif.Bimg
